@@ -15,5 +15,17 @@ ASSUMPTIONS = ['Earley error sets (expected/allowed equal or contain the legal c
                'viable-prefix property of the LALR table (error at the FIRST offending token) rests on the table: bounded stand-in of C02 only']
 
 
+from pyvc.util import native_file
+BOUNDED = [dict(name='standin.lalr-errors', function='LALR: rejection at the first offending token, never a foreign exception or a hang (table construction is not under contract)',
+                code=native_file('bounded/c02_lalr.py'),
+                bound={'quick': 'as C02 standin.lalr-table: 200 random grammars x all terminal strings of length <= 4', 'thorough': '1200 grammars, length <= 5'},
+                note='bounded stand-in: never counted as proved'),
+           dict(name='standin.error-reports', function='error class / position / expected sets for Earley (basic, dynamic, dynamic_complete), LALR $END coordinates, custom lexers',
+                code=native_file('bounded/c08_errors.py'),
+                bound={'quick': '5 grammars x 3 Earley lexers + LALR x all texts of length <= 4: error class, position, expected/allowed vs brute force over one-token extensions',
+                       'thorough': 'texts of length <= 6'},
+                note='bounded stand-in: never counted as proved')]
+
+
 def register(reg):
     pass
